@@ -81,24 +81,22 @@ def command_names(api, srcs, package):
         rel = FILES[fkey]
         blk = impl_block(api, srcs[fkey], struct, rel)
         nb = api.fn_body(blk, "name", rel)
-        m = re.fullmatch(r"\{\s*pckg::concat\(\s*&self\.package\s*,\s*\"((?:[^\"\\]|\\.)*)\"\s*\)\s*\}", nb)
-        if not m:
+        # tolerant reading (selftest/refactors3 RX-1: `let name = pckg::concat(..); name` is the same function): the body must
+        # contain exactly one call pckg::concat(&self.package, "<literal>") and no other string literal; whatever is read here is
+        # compared with what the loaded registry answers for the name on every run (obligation "registry" of C04 / C05)
+        LIT = r"\"((?:[^\"\\]|\\.)*)\""
+        calls = re.findall(r"pckg::concat\(\s*&\s*self\.package\s*,\s*" + LIT + r"\s*\)", nb)
+        if len(calls) != 1 or len(re.findall(LIT, nb)) != 1:
             raise api.GenError("%s: %s::name() has an unexpected shape: %s" % (rel, struct, " ".join(nb.split())))
-        name = concat(package, api.rust_str(m.group(1)))
+        name = concat(package, api.rust_str(calls[0]))
         if re.search(r"fn\s+aliases\s*\(", blk):
             ab = api.fn_body(blk, "aliases", rel)
-            m = re.fullmatch(r"\{\s*vec!\[(.*)\]\s*\}", ab, re.S)
-            if not m:
+            # tolerant reading: the aliases are the string literals of the body in order (vec!["a".to_string(), ..],
+            # String::from("a"), "a".into(), a local vector returned at the end ...); no control flow, no pckg::concat, no format!
+            code = re.sub(r"\"((?:[^\"\\]|\\.)*)\"", '""', ab)          # the body without its string literals
+            if re.search(r"\b(if|match|for|while|loop)\b|pckg::concat|format!|\.push\(|\.extend|\.append", code):
                 raise api.GenError("%s: %s::aliases() has an unexpected shape" % (rel, struct))
-            inner = m.group(1).strip()
-            aliases = []
-            if inner:
-                parts = [p.strip() for p in inner.rstrip(",").split(",")]
-                for p in parts:
-                    mm = re.fullmatch(r"\"((?:[^\"\\]|\\.)*)\"\.to_string\(\)", p)
-                    if not mm:
-                        raise api.GenError("%s: %s::aliases(): unexpected element %s" % (rel, struct, p))
-                    aliases.append(api.rust_str(mm.group(1)))
+            aliases = [api.rust_str(x) for x in re.findall(r"\"((?:[^\"\\]|\\.)*)\"", ab)]
         else:
             aliases = []   # trait default: vec![]
         res[struct] = (name, aliases)
@@ -227,7 +225,7 @@ def generate(api):
     for fkey in ("ifelse", "while_mod", "forin"):
         body = api.fn_body(srcs[fkey], "create", FILES[fkey])
         for struct, (fk, _) in COMMANDS.items():
-            if fk == fkey and not re.search(r"Box::new\(\s*%s\s*\{\s*package:\s*package\.to_string\(\)\s*,?\s*\}\s*\)" % struct, body):
+            if fk == fkey and not re.search(r"\b%s\s*\{\s*package\s*(:\s*(package\.(to_string|to_owned|clone)\(\)|String::from\(\s*package\s*\)|package\.into\(\))\s*)?,?\s*\}" % struct, body):
                 raise api.GenError("%s: create(): %s { package: package.to_string() } not found" % (FILES[fkey], struct))
 
     end_rel = FILES["end"]
